@@ -583,6 +583,30 @@ func c12Register(c *Ctx, la *lockAnalysis) {
 		c.check(!r[appendSt.Block()], rule, fnName(fn)+": finding an equal path in the second scan never leads to the append", c.pos(lastInstr(e.From)), "append unreachable from the equal edge", "a duplicate can still be appended")
 	}
 	c.floor(rule, nEq, 1, "equal-path branch inside the append's critical section")
+	// ... and the scan covers the whole list: the compared elements are indexed out of
+	// s.dbs itself, not out of a sub-slice (entries can move down when another database
+	// is unregistered, so "only the entries added since the first check" is not a prefix
+	// property)
+	for _, vs := range sitesV(fn, func(in ssa.Instruction) bool {
+		ia, ok := in.(*ssa.IndexAddr)
+		if !ok {
+			return false
+		}
+		return strings.Contains(ia.X.Type().String(), "DB") && strings.HasPrefix(ia.X.Type().Underlying().String(), "[]")
+	}) {
+		ia := vs.In.(*ssa.IndexAddr)
+		at := vs.At()
+		if !dominates(lock, at) || !(at.Block() == appendSt.Block() || reachable(fn, at.Block(), nil)[appendSt.Block()]) {
+			continue
+		}
+		whole := false
+		if u, isU := ia.X.(*ssa.UnOp); isU {
+			if fa, isFA := u.X.(*ssa.FieldAddr); isFA && fieldAddrName(fa) == "Store.dbs" {
+				whole = true
+			}
+		}
+		c.check(whole, rule, fnName(fn)+": the duplicate scan in the append's critical section covers the whole list", c.pos(ia), "elements are indexed out of s.dbs", "the second duplicate check scans only part of s.dbs: a same-path instance outside that part is missed and a second instance of the database is appended")
+	}
 	// Open/Close are called without Store.mu
 	for _, call := range calls(fn) {
 		switch calleeName(call) {
